@@ -91,6 +91,7 @@ Record config := mkCfg {
   c_indent_size : nat;
   c_prompt_limit : nat;
   c_show_all : bool;                  (* completion_show_all_if_ambiguous: list the candidates at the first Tab *)
+  c_bell : bool;                      (* bell_style: Audible (true, the unix default) or None / Visible (nothing is written) *)
   c_has_helper : bool;
   c_complete : str -> nat -> nat * list str;     (* Completer::complete *)
   c_hint : str -> nat -> option str;             (* Hinter::hint (display = completion) *)
@@ -610,7 +611,7 @@ Section Editor.
           end
         else set_hidx (hlen_e s) ;;; restore ;;; refresh_line.
 
-  Definition beep : E unit := write [7%N].      (* BellStyle::Audible is the unix default *)
+  Definition beep : E unit := if c_bell cfg then write [7%N] else eret tt.
 
   Definition hist_of (s : est) : hist := mkHist (e_hist s) (length (e_hist s)) false false.
 
